@@ -135,3 +135,23 @@ Definition request_full_real_checked (fw : fworld) (cfg : Setup.config) (rc : Re
 (* the version names of every product of the world are conventional and no two of one product spell the same key *)
 Definition fw_real_ok (cfg : Setup.config) (fw : fworld) : bool :=
   forallb (fun n => real_names_ok (names_of (db_of cfg fw) n)) (map p_name (fw_products fw)).
+
+(* ------------------------------------------------------------------ one stack whose listings are sorted *)
+
+(* Database.findProducts lists the version files of a product sorted as strings.  In ONE stack with such listings the
+   rule - the last of the greatest names - is: the greatest in the order of C10 refined, among spellings of one key, by
+   the order of the strings; that refined order is a total order on conventional names whatever their spelling. *)
+Definition vcmp_sorted (a b : str) : comparison :=
+  match vcmp_real a b with Eq => str_compare a b | c => c end.
+
+Fixpoint str_sorted (l : list str) : bool :=
+  match l with
+  | a :: ((b :: _) as r) => (match str_compare a b with Lt => true | _ => false end) && str_sorted r
+  | _ => true
+  end.
+
+(* every listing (per product and flavor) of every stack is strictly increasing *)
+Definition db_sorted (db : dbv) : bool :=
+  forallb (fun s => forallb (fun d => match d with (n, _, f) => str_sorted (versions_in s n f) end) (st_decl s)) db.
+
+Definition fw_conv (fw : fworld) : bool := forallb conv (map p_version (fw_products fw)).
